@@ -175,6 +175,15 @@ def attach_forks(jobs, images_by_path, rng, max_per_run, cont_choice=None, expan
             for f in forks:
                 dmax[f["image"]["at"]] = max(dmax.get(f["image"]["at"], 0), _k(f))
             near = [f for f in nontriv if dmax[f["image"]["at"]] > 2 and _k(f) in (dmax[f["image"]["at"]] - 1, dmax[f["image"]["at"]] - 2)]
+            if job.get("chain") and replicate:
+                # chains: every image of a multi-chunk write that lacks exactly one chunk is continued (cap 40 per run)
+                one_short = [f for f in nontriv if dmax[f["image"]["at"]] > 3 and _k(f) == dmax[f["image"]["at"]] - 1]
+                rng.shuffle(one_short)
+                for f in one_short[:job.get("chainCap", 8)]:
+                    f["expand"] = True
+                    f["replicate"] = True
+                nontriv = [f for f in nontriv if not f.get("expand")]
+                near = [f for f in near if not f.get("expand")]
             if len(near) >= expand_next // 2 and expand_next >= 2:
                 picked = rng.sample(near, expand_next // 2)
                 for f in picked:
@@ -191,7 +200,7 @@ def attach_forks(jobs, images_by_path, rng, max_per_run, cont_choice=None, expan
             # so that the size relation between the torn batch and the next one is covered, not sampled
             extra = []
             for f in forks:
-                if f.get("expand"):
+                if f.get("expand") and f.pop("replicate", False):
                     for ti in CHAIN_TEMPLATES:
                         if CONT_TEMPLATES[ti] != f["cont"]:
                             g = copy.deepcopy(f)
